@@ -13,6 +13,8 @@ THEOREMS = [
     'Tie.linecol_spec',
     'Tie.excerpt_spec',
     'Tie.map_index_eq',
+    'Tie.linecol_defined_iff',
+    'Tie.linecol_at_newline',
 ]
 TIE_MODULES = ['Tie.Excerpt']
 TRANSLATORS = ('excerpt',)
@@ -209,6 +211,17 @@ def validate_translation(tier, rng, lean):
         if lc != f'{line_col_real[0]} {line_col_real[1]}':
             bad.append({'key': f'linecol|{pos}|{text}', 'kind': 'model', 'what': f'translated _get_line_and_column gives {lc}, real {line_col_real} at {pos} in {text[:40]!r}'})
             continue
+        # outside the text: the real function raises IndexError at len and beyond (Tie.linecol_defined_iff: `none`),
+        # and Python's negative indices count from the end - the translation must agree there too
+        for q in (len(text), len(text) + rng.randint(1, 5), -rng.randint(1, len(text)), -len(text) - rng.randint(1, 3)):
+            try:
+                r = mod._get_line_and_column(text, q)
+                want = f'{r[0]} {r[1]}'
+            except IndexError:
+                want = 'none'
+            got = drv.ask(f'(linecol {q} {cs})')
+            if got != want:
+                bad.append({'key': f'linecol|{q}|{text}', 'kind': 'model', 'what': f'translated _get_line_and_column gives {got}, real {want} at {q} in a text of length {len(text)} {text[:40]!r}'})
         col = line_col_real[1]
         # also off-spec columns: the translation must agree on every argument, not only consistent ones
         for c in (col, rng.randint(1, 130)):
